@@ -1,9 +1,57 @@
 From Coq Require Import NArith.
 From Stam Require Import Base.Tac Model.Offset Model.Utf8 Model.TextOps Spec.TextOpsSpec Proofs.TextOps Props.C07.
-Check (C07_find_text : forall (find_b : text -> text -> option nat),
-  (forall hay nd, find_b hay nd = option_map (bytepos hay) (first_occ nd hay)) ->
+(* statement pins of the main theorems *)
+Check (C07_find_text : forall find_b, find_ok find_b ->
   forall t nd sb se, sb <= se -> se <= length t ->
   find_text find_b t nd sb se = (map (shift sb) (match_indices nd (sub t sb se)), Done)).
+Check (C07_find_text_nocase : forall find_b, find_ok find_b ->
+  forall lc t nd sb se, Known_C07_nocase_len lc (sub t sb se) = false -> sb <= se -> se <= length t ->
+  find_text_nocase find_b (flat_map lc) t nd sb se
+  = (map (shift sb) (nocase_indices lc (flat_map lc nd) (sub t sb se)), Done)).
+Check (C07_match_indices_sound : forall nd hay m, In m (match_indices nd hay) ->
+  snd m <= length hay /\ subtext hay (fst m) (snd m) = nd).
+Check (C07_match_indices_maximal : forall nd hay p,
+  p + length nd <= length hay -> subtext hay p (p + length nd) = nd ->
+  exists m, In m (match_indices nd hay) /\ fst m <= p /\ p < Nat.max (snd m) (S (fst m))).
+Check (C07_split_text : forall split_b, split_ok split_b ->
+  forall t d sb se, sb <= se -> se <= length t ->
+  split_text split_b t d sb se = (map (shift sb) (split_spec d (sub t sb se)), Done)).
+Check (C07_split_join : forall d hay,
+  join d (map (fun r => subtext hay (fst r) (snd r)) (split_spec d hay)) = hay).
+Check (C07_trim_text : forall inset t sb se, sb <= se -> se <= length t ->
+  trim_text inset t sb se = OOk (shift sb (trim_spec inset (sub t sb se)))).
+Check (C07_regex_offsets : forall t sb se g ps pe, sb <= se -> se <= length t ->
+  on_boundaries (sub t sb se) g ps pe ->
+  conv_group t (bytepos t sb) g = OOk (sb + ps, sb + pe)
+  /\ sub t (sb + ps) (sb + pe) = sub (sub t sb se) ps pe
+  /\ char_index (sub t sb se) (fst g) = Some ps /\ char_index (sub t sb se) (snd g) = Some pe).
+Check (C07_segmentation_in_range : forall interval t known b e, b <= e -> e <= length t ->
+  segmentation_in_range interval t known b e = segments_spec known b e).
+Check (C07_segments_contiguous : forall known lo hi, lo < hi ->
+  contiguous lo (segments_spec known lo hi) hi).
+Check (C07_segments_cut_points : forall known lo hi p, lo < hi ->
+  In p (tl (map fst (segments_spec known lo hi))) <-> lo < p /\ p < hi /\ is_boundary known p = true).
+Check (C07_find_text_sequence : forall find_b, find_ok find_b ->
+  forall skip t frags sb se, sb <= se -> se <= length t ->
+  find_text_sequence find_b (fun x => x) skip t frags sb se
+  = OOk (option_map (map (shift sb)) (sequence_spec match_indices skip (sub t sb se) 0 frags))).
 Print Assumptions C07_find_text.
-Print Assumptions C07_find_text_nocase.
 Print Assumptions C07_store_find_text.
+Print Assumptions C07_match_indices_sound.
+Print Assumptions C07_match_indices_ordered.
+Print Assumptions C07_match_indices_maximal.
+Print Assumptions C07_find_text_nocase.
+Print Assumptions C07_nocase_indices_meaning.
+Print Assumptions C07_nocase_refuted.
+Print Assumptions C07_split_text.
+Print Assumptions C07_split_join.
+Print Assumptions C07_split_partition.
+Print Assumptions C07_trim_text.
+Print Assumptions C07_trim_meaning.
+Print Assumptions C07_regex_offsets.
+Print Assumptions C07_segmentation.
+Print Assumptions C07_segmentation_in_range.
+Print Assumptions C07_segments_contiguous.
+Print Assumptions C07_segments_cut_points.
+Print Assumptions C07_find_text_sequence.
+Print Assumptions C07_find_text_sequence_nocase.
